@@ -30,7 +30,7 @@ SPEC = {
 }
 
 CLAIM = {
-    "text": "The real binary, built with the Go race detector from the working tree, serves DNS over UDP/TCP to 12 client goroutines while one goroutine per admin-API family (clients, access lists, custom rules, filter lists + refresh against a local list server, rewrites, blocked services, protection pause of 20-50 ms, safe search, parental/safe-browsing toggles, query-log and statistics configuration/clear, DHCP static leases) mutates the live configuration through real HTTP calls; latency is injected at the mock upstream and list server and GOMAXPROCS varies by seed. Monitors: the server's race-detector log (each distinct pair of racing product functions is a violation), panic/fatal scan and exit status, per-query well-formedness of every reply, bounded-progress probe (20 DNS probes + 5 admin GETs within 30 s) after quiescence, clean shutdown. Package-level -race stress monitors cover paths the binary does not reach here: the safe-search filter (CheckHost x Update), the client registry (lookups ending in the DHCP fallback x add/update/remove; the C04 concurrent workload), the DHCP server (v4 messages x v4/v6 static leases x readers x lease-file observer; and rounds of 2-4 simultaneous DISCOVER+REQUEST copies of one new client, after which table, Leases() and leases.json must hold one lease per client and per address and the pool must still serve a full pool of clients) and the statistics module (updates x API reads x back-to-back hourly roll-overs through the real flush; a round that does not finish is a stall).",
+    "text": "The real binary, built with the Go race detector from the working tree, serves DNS over UDP/TCP to 12 client goroutines while one goroutine per admin-API family (clients, access lists, custom rules, filter lists + refresh against a local list server, rewrites, blocked services, protection pause of 20-50 ms, safe search, parental/safe-browsing toggles, query-log and statistics configuration/clear, DHCP static leases) mutates the live configuration through real HTTP calls; latency is injected at the mock upstream and list server and GOMAXPROCS varies by seed. Monitors: the server's race-detector log (each distinct pair of racing product functions is a violation), panic/fatal scan and exit status, per-query well-formedness of every reply, bounded-progress probe (20 DNS probes + 5 admin GETs within 30 s) after quiescence, clean shutdown. Package-level -race stress monitors cover paths the binary does not reach here: the safe-search filter (CheckHost x Update), the client registry (lookups ending in the DHCP fallback x add/update/remove; the C04 concurrent workload), the DHCP server (v4 messages x v4/v6 static leases x readers x lease-file observer; and rounds of 2-4 simultaneous DISCOVER+REQUEST copies of one new client, after which table, Leases() and leases.json must hold one lease per client and per address and the pool must still serve a full pool of clients) and the statistics module (updates x API reads x back-to-back hourly roll-overs through the real flush; a round that does not finish is a stall). Further phases of the binary tier: the periodic list refresh downloading while admin operations rebuild the engines and add lists; the query-log file replaced by a FIFO nobody reads; one upstream exchange pending for 8 s while an admin operation takes the server lock (other requests must be served meanwhile); hundreds of requests of unseen clients behind a trusted proxy while client-name lookups take 7 s and an admin operation is issued; dashboard pollers on the read-only endpoints throughout; lists served without a final line end at buffer-sized lengths. A stall is a stop of serving (at most 2 of 20 probes answered or no admin GET answered), not a late answer. The statistics part also runs tight-loop readers x resets x updaters with a progress watchdog; in the DHCP part a round that does not finish with goroutines waiting for a lock inside the server for a minute is a deadlock.",
     "note": "Only interleavings that actually occurred are judged; a race whose window never opened is missed. Mutating admin calls go through the product's control lock (they are real HTTP calls); operations that restart listeners (dns_config, tls/configure) are excluded as the statement does not list them.",
     "technique": "Go race detector + panic/stall/well-formedness monitors over a stressed real binary",
 }
